@@ -153,4 +153,289 @@ theorem untrusted_host_table :
   simp only [untrustedOk, hc] at this
   simpa [or_assoc] using this
 
+/-! ### the same gates on the model, for every configuration, request and counter value -/
+
+/-- **eval gate, model**: `frame.eval` is reached only with evalex on, a trusted Host, the right
+secret, a known frame and (pin off or a valid unexpired cookie), on a `__debugger__=yes` request that
+carries a command. -/
+theorem eval_gate (cfg : Config) (failed : UInt8) (r : Req) (h : respond cfg failed r = .evalRan) :
+    cfg.evalex = true ∧ r.hostTrusted = true ∧ r.secret = .right ∧ r.frameKnown = true ∧
+    (cfg.pinOn = false ∨ r.cookie = .valid) ∧ r.debugger = true ∧ r.cmd ≠ .none := by
+  have key : evalCond cfg r = true ∧ r.hostTrusted = true ∧ r.debugger = true := by
+    unfold respond at h
+    split at h
+    · split at h
+      · cases h
+      · simp only [hostGate] at h; split at h <;> cases h
+      · simp only [hostGate] at h; split at h <;> cases h
+      · split at h
+        · simp only [hostGate] at h
+          split at h
+          · exact ⟨by assumption, by assumption, by assumption⟩
+          · cases h
+        · cases h
+    · split at h
+      · simp only [hostGate] at h; split at h <;> cases h
+      · cases h
+  obtain ⟨hc, hh, hd⟩ := key
+  simp only [evalCond, Bool.and_eq_true] at hc
+  obtain ⟨⟨⟨⟨h1, h2⟩, h3⟩, h4⟩, h5⟩ := hc
+  refine ⟨h1, hh, ?_, h3, ?_, hd, ?_⟩
+  · cases hs : r.secret <;> simp [hs, Secret.isRight] at h4 ⊢
+  · cases hp : cfg.pinOn <;> cases hk : r.cookie <;> simp [checkPinTrust, hp, hk, Trust.isYes] at h5 ⊢
+  · cases hm : r.cmd <;> simp [hm, Cmd.isSome] at h2 ⊢
+
+example : respond { evalex := true, pinOn := true } 0
+    { debugger := true, cmd := .other, hasArg := false, secret := .right, frameKnown := true,
+      hostTrusted := true, cookie := .valid, pinRight := false, atConsole := false } = .evalRan := by decide
+
+/-- **console gate, model**: the console page is rendered only with evalex on, at the console path
+and for a trusted Host. -/
+theorem console_gate (cfg : Config) (failed : UInt8) (r : Req) (h : respond cfg failed r = .console) :
+    cfg.evalex = true ∧ r.hostTrusted = true ∧ r.atConsole = true ∧ r.debugger = false := by
+  unfold respond at h
+  split at h
+  · split at h
+    · cases h
+    · simp only [hostGate] at h; split at h <;> cases h
+    · simp only [hostGate] at h; split at h <;> cases h
+    · split at h
+      · simp only [hostGate] at h; split at h <;> cases h
+      · cases h
+  · split at h
+    · rename_i hd hc
+      simp only [hostGate] at h
+      split at h
+      · simp only [Bool.and_eq_true] at hc
+        exact ⟨hc.1.1, by assumption, hc.2, by simpa using hd⟩
+      · cases h
+    · cases h
+
+example : respond { evalex := true, pinOn := true } 0
+    { debugger := false, cmd := .none, hasArg := false, secret := .absent, frameKnown := false,
+      hostTrusted := true, cookie := .absent, pinRight := false, atConsole := true } = .console := by decide
+
+/-- **pinauth gate, model**: the PIN endpoint answers only a trusted Host that knows the secret, and
+grants `auth` only with pin off, a valid cookie, or the right PIN while not locked out. -/
+theorem pinauth_gate (cfg : Config) (failed : UInt8) (r : Req) (res : PinResult)
+    (h : respond cfg failed r = .pinauth res) :
+    r.hostTrusted = true ∧ r.secret = .right ∧ r.cmd = .pinauth ∧ r.debugger = true ∧
+    (res.auth = true → cfg.pinOn = false ∨ r.cookie = .valid ∨ (r.pinRight = true ∧ ¬ failed > 10)) := by
+  unfold respond at h
+  split at h
+  · split at h
+    · cases h
+    · rename_i hd _ _ _ hcmd hsec
+      simp only [hostGate] at h
+      split at h
+      · simp only [Outcome.pinauth.injEq] at h
+        refine ⟨by assumption, ?_, hcmd, hd, ?_⟩
+        · cases hs : r.secret <;> simp [hs, Secret.isRight] at hsec ⊢
+        · intro ha
+          subst h
+          cases hp : cfg.pinOn <;> cases hk : r.cookie <;>
+            simp [pinAuth, pinAuthWith, checkPinTrust, hp, hk] at ha ⊢ <;>
+            (split at ha <;> try split at ha) <;> simp_all
+      · cases h
+    · simp only [hostGate] at h; split at h <;> cases h
+    · split at h
+      · simp only [hostGate] at h; split at h <;> cases h
+      · cases h
+  · split at h
+    · simp only [hostGate] at h; split at h <;> cases h
+    · cases h
+
+/-- **printpin gate, model**: the PIN is logged / the endpoint answers only for a trusted Host that
+knows the secret. -/
+theorem printpin_gate (cfg : Config) (failed : UInt8) (r : Req) (b : Bool)
+    (h : respond cfg failed r = .printpin b) :
+    r.hostTrusted = true ∧ r.secret = .right ∧ r.cmd = .printpin ∧ r.debugger = true := by
+  unfold respond at h
+  split at h
+  · split at h
+    · cases h
+    · simp only [hostGate] at h; split at h <;> cases h
+    · rename_i hd _ _ _ hcmd hsec
+      simp only [hostGate] at h
+      split at h
+      · refine ⟨by assumption, ?_, hcmd, hd⟩
+        cases hs : r.secret <;> simp [hs, Secret.isRight] at hsec ⊢
+      · cases h
+    · split at h
+      · simp only [hostGate] at h; split at h <;> cases h
+      · cases h
+  · split at h
+    · simp only [hostGate] at h; split at h <;> cases h
+    · cases h
+
+/-- **untrusted Host, model**: whatever else the request carries, an untrusted Host gets the wrapped
+application, a static resource or SecurityError, and the failure counter is not touched. -/
+theorem untrusted_host (cfg : Config) (failed : UInt8) (r : Req) (h : r.hostTrusted = false) :
+    (respond cfg failed r = .app ∨ respond cfg failed r = .resource ∨
+      respond cfg failed r = .securityError) ∧ nextCounter cfg failed r = failed := by
+  have key : respond cfg failed r = .app ∨ respond cfg failed r = .resource ∨
+      respond cfg failed r = .securityError := by
+    unfold respond
+    split
+    · split
+      · exact Or.inr (Or.inl rfl)
+      · simp [hostGate, h]
+      · simp [hostGate, h]
+      · split
+        · simp [hostGate, h]
+        · exact Or.inl rfl
+    · split
+      · simp [hostGate, h]
+      · exact Or.inl rfl
+  refine ⟨key, ?_⟩
+  unfold nextCounter
+  rcases key with k | k | k <;> rw [k]
+
+/-! ### host_is_trusted -/
+
+/-- **Soundness of `host_is_trusted`** for every Host, trusted list and IDNA function: an accepted
+Host is non-empty, its port-stripped name encodes, and some listed entry either encodes to the same
+name or is dot-prefixed and the name ends with `"." ++ entry`. Look-alike suffixes
+(`evillocalhost`, `localhost.evil.com`) therefore cannot be accepted. -/
+theorem host_trusted_sound (idna : Idna) (host : Option (List Char)) (trusted : List (List Char))
+    (h : hostIsTrusted idna host trusted = true) :
+    ∃ hst hn, host = some hst ∧ hst ≠ [] ∧ idna (beforeColon hst) = .ok hn ∧
+      ∃ ref ∈ trusted, RefMatches idna hn ref := by
+  unfold hostIsTrusted at h
+  split at h
+  · cases h
+  · cases h
+  · rename_i hst hne
+    cases hi : idna (beforeColon hst) with
+    | error e => simp [hi] at h
+    | ok hn =>
+      simp only [hi] at h
+      exact ⟨hst, hn, rfl, fun he => hne (by rw [he]), hi, matchRefs_sound idna hn trusted h⟩
+
+/-- **`host_is_trusted` decides exactly the documented relation** when every entry of the trusted
+list can be IDNA-encoded (a sane configuration; an unencodable entry makes the code answer False
+for everything that is not matched by an earlier entry). -/
+theorem host_trusted_iff (idna : Idna) (hst : List Char) (trusted : List (List Char))
+    (henc : ∀ ref ∈ trusted, ∃ rn, idna (beforeColon (refParts ref).2) = .ok rn) :
+    hostIsTrusted idna (some hst) trusted = true ↔
+      hst ≠ [] ∧ ∃ hn, idna (beforeColon hst) = .ok hn ∧ ∃ ref ∈ trusted, RefMatches idna hn ref := by
+  constructor
+  · intro h
+    obtain ⟨h', hn, he, hne, hi, hm⟩ := host_trusted_sound idna (some hst) trusted h
+    cases he
+    exact ⟨hne, hn, hi, hm⟩
+  · intro ⟨hne, hn, hi, hm⟩
+    unfold hostIsTrusted
+    cases hst with
+    | nil => exact absurd rfl hne
+    | cons c t =>
+      simp only [hi]
+      exact matchRefs_complete idna hn trusted henc hm
+
+example : hostIsTrusted asciiIdna (some "sub.localhost:5000".toList) [".localhost".toList] = true := by decide
+example : hostIsTrusted asciiIdna (some "evillocalhost".toList) [".localhost".toList, "localhost".toList] = false := by
+  decide
+example : hostIsTrusted asciiIdna (some "localhost.evil.com".toList) [".localhost".toList, "localhost".toList] = false := by
+  decide
+example : hostIsTrusted asciiIdna (some "a..localhost".toList) [".localhost".toList] = false := by decide
+
+/-- **True subdomain**: when the codec never yields a name that starts with a dot (CPython's
+rejects empty labels), a name that ends with `"." ++ entry` is `prefix ++ "." ++ entry` with a
+non-empty prefix: acceptance through the suffix rule means a true subdomain. -/
+theorem true_subdomain (hn rn : List Char) (hdot : hn.head? ≠ some '.')
+    (h : ('.' :: rn) <:+ hn) : ∃ p, p ≠ [] ∧ hn = p ++ '.' :: rn := by
+  obtain ⟨p, hp⟩ := h
+  refine ⟨p, ?_, hp.symm⟩
+  intro he
+  subst he
+  simp only [List.nil_append] at hp
+  rw [← hp] at hdot
+  simp at hdot
+
+/-! ### known finding F20c: bracketed IPv6 literals -/
+
+/-- the authority without its port, keeping a bracketed IPv6 literal whole -/
+def stripPort : List Char → List Char
+  | '[' :: rest =>
+    if rest.contains ']' then '[' :: rest.takeWhile (· != ']') ++ [']'] else '[' :: rest
+  | s => beforeColon s
+
+/-- `host` is exactly a listed name, or a subdomain of a dot-prefixed entry — comparing the names
+with their ports stripped properly (what the property asks for) -/
+def ExactlyListed (idna : Idna) (hst : List Char) (trusted : List (List Char)) : Prop :=
+  ∃ hn, idna (stripPort hst) = .ok hn ∧ ∃ ref ∈ trusted, ∃ rn,
+    idna (stripPort (refParts ref).2) = .ok rn ∧ (rn = hn ∨ ((refParts ref).1 = true ∧ ('.' :: rn) <:+ hn))
+
+/-- The full-strength statement "an accepted Host is exactly a listed name or a true subdomain" is
+false: `host_is_trusted('[::2]', ['[::1]'])` is True because `partition(':')` reduces both sides
+to `[` — a different address literal is accepted (known finding F20c). -/
+theorem host_exact_full_false :
+    ¬ (∀ (hst : List Char) (trusted : List (List Char)),
+        hostIsTrusted asciiIdna (some hst) trusted = true → ExactlyListed asciiIdna hst trusted) := by
+  intro h
+  have hacc : hostIsTrusted asciiIdna (some "[::2]".toList) ["[::1]".toList] = true := by decide
+  obtain ⟨hn, h1, ref, hmem, rn, h2, h3⟩ := h _ _ hacc
+  simp only [List.mem_singleton] at hmem
+  subst hmem
+  have e1 : asciiIdna (stripPort "[::2]".toList) = .ok "[::2]".toList := by rfl
+  have e2 : asciiIdna (stripPort (refParts "[::1]".toList).2) = .ok "[::1]".toList := by rfl
+  rw [e1] at h1
+  rw [e2] at h2
+  cases h1
+  cases h2
+  rcases h3 with h3 | ⟨h3, _⟩
+  · exact absurd h3 (by decide)
+  · exact absurd h3 (by decide)
+
+/-- ... and it holds for every Host and trusted list on which `partition(':')` strips the port
+where a bracket-aware strip does (no `:` inside brackets — every name, IPv4 address and
+`name:port`), for every IDNA function. -/
+theorem host_exact_partial (idna : Idna) (hst : List Char) (trusted : List (List Char))
+    (hh : beforeColon hst = stripPort hst)
+    (ht : ∀ ref ∈ trusted, beforeColon (refParts ref).2 = stripPort (refParts ref).2)
+    (h : hostIsTrusted idna (some hst) trusted = true) : ExactlyListed idna hst trusted := by
+  obtain ⟨h', hn, he, _, hi, ref, hmem, rn, hr, hm⟩ := host_trusted_sound idna (some hst) trusted h
+  cases he
+  exact ⟨hn, by rw [← hh]; exact hi, ref, hmem, rn, by rw [← ht ref hmem]; exact hr, hm⟩
+
+example : beforeColon "sub.localhost:5000".toList = stripPort "sub.localhost:5000".toList := by decide
+example : beforeColon "[::1]:80".toList ≠ stripPort "[::1]:80".toList := by decide
+
+/-! ### PIN lock-out -/
+
+/-- **The byte counter is observationally an unbounded counter**: for every history of attempts
+(right PIN, wrong PIN, stale cookie), of any length, the answers of `pin_auth` with the saturating
+`Value("B")` counter are exactly those of the same procedure with an unbounded failure count. -/
+theorem counter_saturation_exact (hist : List Attempt) :
+    (runHistory failPinAuth 0 hist).1 = (runIdeal 0 hist).1 :=
+  (runHistory_tracks hist 0 0 Tracks.zero).1
+
+/-- **Lock-out is permanent**: for every history `pre` after which more than ten attempts have
+failed since the last success (unbounded count), every later attempt of every continuation `rest`
+— in particular every attempt with the right PIN — is refused by the real (byte-counter) procedure,
+and the procedure stays locked. No bound on the length of either history. -/
+theorem lockout_permanent (pre rest : List Attempt) (hlocked : (runIdeal 0 pre).2 > 10) :
+    (∀ r ∈ (runHistory failPinAuth (runHistory failPinAuth 0 pre).2 rest).1, r.auth = false) ∧
+    (runHistory failPinAuth (runHistory failPinAuth 0 pre).2 rest).2 > 10 := by
+  have h1 := runHistory_tracks pre 0 0 Tracks.zero
+  have h2 := runHistory_tracks rest _ _ h1.2
+  have h3 := runIdeal_locked rest _ hlocked
+  rw [h2.1]
+  exact ⟨h3.1, h2.2.gt_ten.mpr h3.2⟩
+
+/-- eleven wrong PINs lock; the hypothesis of `lockout_permanent` is satisfiable -/
+example : (runIdeal 0 (List.replicate 11 Attempt.wrong)).2 > 10 := by decide
+example : (runHistory failPinAuth 0 (List.replicate 11 Attempt.wrong ++ [.right])).1.getLast?
+    = some ⟨false, true⟩ := by decide
+
+/-- **Contrast (the defect repaired by 3932b31)**: with a wrapping 8-bit counter the lock-out is not
+permanent — 256 stale-cookie attempts wrap the counter to 0 and the right PIN authenticates again;
+with the saturating counter the same history ends refused. -/
+theorem wrapping_counter_unlocks :
+    (runHistory failPinAuthWrapping 0 (List.replicate 256 Attempt.stale ++ [.right])).1.getLast?
+      = some ⟨true, false⟩ ∧
+    (runHistory failPinAuth 0 (List.replicate 256 Attempt.stale ++ [.right])).1.getLast?
+      = some ⟨false, true⟩ := by
+  decide +kernel
+
 end Wz.Props.C20
